@@ -1,0 +1,254 @@
+//! Verification hooks, only compiled with `--cfg al8n_rarena_verif`.
+//!
+//! Nothing in this module changes the behaviour of the allocator: the wrapper atomics
+//! forward every call to the `core` atomics and merely report the access to an optional,
+//! process-wide set of callbacks (scheduling point *before* the access, observation
+//! *after* it).
+#![allow(missing_docs)]
+
+use core::sync::atomic as ca;
+use core::sync::atomic::Ordering;
+
+/// Kind of an atomic access.
+pub const LOAD: u8 = 0;
+pub const STORE: u8 = 1;
+pub const CAS: u8 = 2;
+pub const CAS_WEAK: u8 = 3;
+pub const FETCH_ADD: u8 = 4;
+pub const FETCH_SUB: u8 = 5;
+
+/// One atomic access performed by the crate.
+#[derive(Debug, Clone, Copy)]
+pub struct AtomicEvent {
+  pub kind: u8,
+  pub addr: usize,
+  pub width: u8,
+  /// store: value; cas: expected; fetch_*: operand
+  pub arg0: u64,
+  /// cas: new
+  pub arg1: u64,
+  pub success: Ordering,
+  pub failure: Ordering,
+}
+
+/// API-level events.
+#[derive(Debug, Clone, Copy)]
+pub enum ApiEvent {
+  /// `Allocator::dealloc(offset, size)` was entered.
+  Dealloc { sync: bool, offset: u32, size: u32 },
+  /// `Memory::unmount` was entered (backing memory is about to be released).
+  Unmount,
+  /// `Meta::clear` is about to zero `[offset, offset+len)`.
+  Zero { offset: u32, len: u32 },
+}
+
+/// The callbacks.
+#[derive(Clone, Copy)]
+pub struct Hooks {
+  /// called before the access is performed (scheduling point).
+  pub before: fn(&AtomicEvent),
+  /// called after the access: the value that was read (old value) and, for CAS, whether it succeeded.
+  pub after: fn(&AtomicEvent, u64, bool),
+  /// API-level events.
+  pub api: fn(&ApiEvent),
+}
+
+static mut HOOKS: Option<Hooks> = None;
+static ENABLED: ca::AtomicBool = ca::AtomicBool::new(false);
+
+/// Install (or remove) the callbacks. Must be called while no other thread uses the crate.
+pub fn set_hooks(h: Option<Hooks>) {
+  ENABLED.store(false, Ordering::SeqCst);
+  unsafe {
+    let p = &raw mut HOOKS;
+    *p = h;
+  }
+  ENABLED.store(h.is_some(), Ordering::SeqCst);
+}
+
+#[inline]
+fn hooks() -> Option<Hooks> {
+  if ENABLED.load(Ordering::Acquire) {
+    unsafe {
+      let p = &raw const HOOKS;
+      *p
+    }
+  } else {
+    None
+  }
+}
+
+#[inline]
+fn before(e: &AtomicEvent) {
+  if let Some(h) = hooks() {
+    (h.before)(e)
+  }
+}
+
+#[inline]
+fn after(e: &AtomicEvent, old: u64, ok: bool) {
+  if let Some(h) = hooks() {
+    (h.after)(e, old, ok)
+  }
+}
+
+/// Report an API-level event.
+#[inline]
+pub fn api_event(e: ApiEvent) {
+  if let Some(h) = hooks() {
+    (h.api)(&e)
+  }
+}
+
+macro_rules! wrap {
+  ($name:ident, $inner:ty, $prim:ty, $w:expr) => {
+    #[repr(transparent)]
+    #[derive(Debug)]
+    pub struct $name($inner);
+
+    impl $name {
+      #[inline]
+      pub const fn new(v: $prim) -> Self {
+        Self(<$inner>::new(v))
+      }
+
+      /// Read the value without reporting the access (observers only).
+      #[inline]
+      pub fn peek(&self) -> $prim {
+        self.0.load(Ordering::SeqCst)
+      }
+
+      #[inline]
+      fn ev(&self, kind: u8, arg0: u64, arg1: u64, s: Ordering, f: Ordering) -> AtomicEvent {
+        AtomicEvent {
+          kind,
+          addr: self as *const _ as usize,
+          width: $w,
+          arg0,
+          arg1,
+          success: s,
+          failure: f,
+        }
+      }
+
+      #[inline]
+      pub fn load(&self, o: Ordering) -> $prim {
+        let e = self.ev(LOAD, 0, 0, o, o);
+        before(&e);
+        let v = self.0.load(o);
+        after(&e, v as u64, true);
+        v
+      }
+
+      #[inline]
+      pub fn store(&self, v: $prim, o: Ordering) {
+        let e = self.ev(STORE, v as u64, 0, o, o);
+        before(&e);
+        // the old value is only meaningful under a serialising hook; it is never used by the crate.
+        let old = if hooks().is_some() {
+          self.0.load(Ordering::Relaxed)
+        } else {
+          0
+        };
+        self.0.store(v, o);
+        after(&e, old as u64, true);
+      }
+
+      #[inline]
+      pub fn compare_exchange(
+        &self,
+        c: $prim,
+        n: $prim,
+        s: Ordering,
+        f: Ordering,
+      ) -> Result<$prim, $prim> {
+        let e = self.ev(CAS, c as u64, n as u64, s, f);
+        before(&e);
+        let r = self.0.compare_exchange(c, n, s, f);
+        match r {
+          Ok(v) => after(&e, v as u64, true),
+          Err(v) => after(&e, v as u64, false),
+        }
+        r
+      }
+
+      #[inline]
+      pub fn compare_exchange_weak(
+        &self,
+        c: $prim,
+        n: $prim,
+        s: Ordering,
+        f: Ordering,
+      ) -> Result<$prim, $prim> {
+        let e = self.ev(CAS_WEAK, c as u64, n as u64, s, f);
+        before(&e);
+        let r = self.0.compare_exchange(c, n, s, f);
+        match r {
+          Ok(v) => after(&e, v as u64, true),
+          Err(v) => after(&e, v as u64, false),
+        }
+        r
+      }
+
+      #[inline]
+      pub fn fetch_add(&self, v: $prim, o: Ordering) -> $prim {
+        let e = self.ev(FETCH_ADD, v as u64, 0, o, o);
+        before(&e);
+        let r = self.0.fetch_add(v, o);
+        after(&e, r as u64, true);
+        r
+      }
+
+      #[inline]
+      pub fn fetch_sub(&self, v: $prim, o: Ordering) -> $prim {
+        let e = self.ev(FETCH_SUB, v as u64, 0, o, o);
+        before(&e);
+        let r = self.0.fetch_sub(v, o);
+        after(&e, r as u64, true);
+        r
+      }
+    }
+  };
+}
+
+wrap!(AtomicU32, ca::AtomicU32, u32, 4);
+wrap!(AtomicU64, ca::AtomicU64, u64, 8);
+wrap!(AtomicUsize, ca::AtomicUsize, usize, 8);
+
+/// `AtomicBool` is only used for the `remove_on_drop` flag, which is not a scheduling point.
+#[repr(transparent)]
+#[derive(Debug)]
+pub struct AtomicBool(ca::AtomicBool);
+
+impl AtomicBool {
+  #[inline]
+  pub const fn new(v: bool) -> Self {
+    Self(ca::AtomicBool::new(v))
+  }
+
+  #[inline]
+  pub fn load(&self, o: Ordering) -> bool {
+    self.0.load(o)
+  }
+
+  #[inline]
+  pub fn store(&self, v: bool, o: Ordering) {
+    self.0.store(v, o)
+  }
+}
+
+/// Addresses of the shared words of a `sync::Arena` (for translating event addresses).
+#[derive(Debug, Clone, Copy)]
+pub struct Addrs {
+  pub base: usize,
+  pub cap: usize,
+  pub cursor: usize,
+  pub discarded: usize,
+  pub min_segment_size: usize,
+  pub sentinel: usize,
+  pub refs: usize,
+}
+
+/// A free-list snapshot: `(node offset, data size, next offset)` in list order, and whether the walk
+/// was cut short (longer than `max` nodes, i.e. cyclic or overlong).
+pub type FreelistSnapshot = (std::vec::Vec<(u32, u32, u32)>, bool);
